@@ -16,6 +16,11 @@ named_parameters() as (key, which object) = `sd_entries`, initializer names = `r
 Checked per case: the decision of the proved equivalence (`nodup_natb (param_ids t)`) predicts exactly whether
 the real names are root + state_dict keys whenever the theorem's hypotheses hold, and the real names are
 root + first-registration keys there.
+
+Name collisions (two DIFFERENT Parameter objects under one qualified name): `probe_collision` observes on one
+minimal program whether Parameter._realize silently replaces the earlier initializer (as read) or raises a
+ValueError naming the initializer (proposed fix); the model is evaluated with that flag (`call_result`), and a
+real run that raised agrees with the model iff the model raises for the same name.
 """
 from __future__ import annotations
 
@@ -52,6 +57,33 @@ def _pairs_lit(l):
 
 def _is_known(ctx, key):
     return any(f.get("status", "known") == "known" and f.get("key") == key for f in getattr(ctx, "findings", []))
+
+
+def chk_lit(cfg):
+    return cbool(bool(cfg.get("raises_on_collision", False)))
+
+
+def probe_collision(ctx):
+    """Which variant of Parameter._realize is this?  One minimal colliding program (w_collide_explicit of
+    C18_silent_loss_refuted): two different Parameter objects, the second one explicitly named like the first
+    (root.w twice; names chosen by the caller, so the silent variant is not reported as a finding by itself).
+      as read : the call returns, graph.initializers == {root.w: <the second object>}   -> False
+      patched : ValueError mentioning 'root.w', raised before the second object is stored  -> True
+    anything else -> broken tie (fail-closed)."""
+    spec = ("mod", "root", [("w", 0, None), ("v", 1, "w")], [], False)
+    try:
+        r = T.run_spec(spec)
+    except Exception as e:  # noqa: BLE001
+        ctx.tie_broken("translator", "probe:name-collision", f"two parameters named root.w: {type(e).__name__}: {str(e)[:300]}")
+        return False
+    if r["error"] == "NameCollision" and r["collision"] == "root.w":
+        return True
+    if r["error"] is None and r["inits"] == ["root.w"] and r["init_ids"].get("root.w") == r["param_ids"][1] \
+            and r["realized"] == {0: True, 1: True}:
+        return False
+    ctx.tie_broken("translator", "probe:name-collision",
+                   f"two parameters named root.w: error {r['error']} ({r.get('collision')!r}), initializers {r['inits']}")
+    return False
 
 
 # ----------------------------------------------------------------------------- stream P: programs
@@ -108,6 +140,22 @@ EXPECTED_P = {
                    "layers.1.weight", "head.w", "head.weight", "head.inner.weight", "tail.weight"]),
     "w_shared_late_first": (["root.l.0.0.v"], ["l.0.0.w", "l.1.v"]),
 }
+# witnesses of C18_silent_loss_refuted: name -> the one name two Parameter objects are realised under
+# (as read: the only initializer; with the check: the name in the ValueError)
+# (the third witness, w_collide_explicit, has no shared object: it is the program of `probe_collision`)
+EXPECTED_COLLISION = {"w_collide_shared": "root.b.bias", "w_collide_submod": "root.y.a.w"}
+
+
+def _check_collision_witness(ctx, cfg, name, obs):
+    want = EXPECTED_COLLISION[name]
+    if cfg.get("raises_on_collision"):
+        ok = obs.get("raised") == want
+    else:
+        ok = obs.get("raised") is None and [k for k, _ in obs["inits"]] == [want] and len({p for _k, p in obs["named"]}) == 2
+    if not ok:
+        ctx.tie_broken("correspondence", f"sharing:witness:{name}",
+                       f"raised {obs.get('raised')!r}, initializers {obs['inits']}, named_parameters {obs['named']}; "
+                       f"Props/C18_modules.v (C18_silent_loss_refuted, raises_on_collision = {bool(cfg.get('raises_on_collision'))}) states {want}")
 
 
 def share_pids(rng, spec, same_key_bias=0.6):
@@ -156,13 +204,17 @@ def share_pids(rng, spec, same_key_bias=0.6):
 
 def _observe_spec(spec, opts):
     r = T.run_spec(spec, opts)
-    if r["error"]:
-        return None
     obj2pid = {v: k for k, v in r["param_ids"].items()}
-    inits = [(k, obj2pid[v]) for k, v in r["init_ids"].items() if v in obj2pid]
     named = [(k, obj2pid[i]) for k, i in zip(r["named"], r["sd_ids"])]
     root = (spec[1] or "") if spec[0] == "mod" else ""
-    return {"inits": inits, "named": named, "root": root, "sd": r["sd"], "all_inits": r["all_inits"],
+    if r["error"] == "NameCollision":
+        # Parameter._realize refused to store a second Parameter object under a name already in use
+        return {"inits": [], "named": named, "root": root, "sd": r["sd"], "all_inits": [], "never_realised": [],
+                "raised": r["collision"], "message": r.get("collision_message")}
+    if r["error"]:
+        return None
+    inits = [(k, obj2pid[v]) for k, v in r["init_ids"].items() if v in obj2pid]
+    return {"inits": inits, "named": named, "root": root, "sd": r["sd"], "all_inits": r["all_inits"], "raised": None,
             "never_realised": sorted(pid for pid, f in r["realized"].items() if not f and pid in {p for _k, p in named})}
 
 
@@ -404,6 +456,22 @@ def fixed_graphs():
         r.l.append(m)
         return r
 
+    def collide_shared():
+        # class A: self.bias = p1; class B: self.bias = P2; self.scale = p1; root.b = B, root.a = A (b called first)
+        p1 = _new_param(counter)
+        a = Node()
+        a.bias = p1                    # p1 is named "bias" here
+        b = Node()
+        b.bias = _new_param(counter)
+        b.scale = p1
+        return par("root", b=b, a=a)
+
+    def collide_submod():
+        m = leaf()
+        x = par(None, a=m)             # m is named "a"
+        y = par(None, a=leaf(), b=m)
+        return par("root", y=y, x=x)   # m is called first through y.b: root.y.a.w, the name of y.a's parameter
+
     def deep_shared():
         inner = par(None, p=leaf(), q=leaf())
         return par("model", enc=par(None, blk=inner), dec=par(None, blk=inner, out=leaf("weight")))
@@ -420,6 +488,8 @@ def fixed_graphs():
         "shared_seq_two_keys": (shared_seq_two_keys, None, None),
         "append_after_attach": (append_after_attach, None, None),
         "deep_shared": (deep_shared, None, None),
+        "w_collide_shared": (collide_shared, None, None),
+        "w_collide_submod": (collide_submod, None, None),
     }
 
 
@@ -428,9 +498,16 @@ def _observe_graph(root):
     named = [(k, pid_of[id(p)]) for k, p in root.named_parameters()]
     sd = list(root.state_dict().keys())
     g, gb, x, _cond = T._mk_graph()
-    root(gb.op, x)
+    try:
+        root(gb.op, x)
+    except ValueError as e:
+        name = T.collision_name(e, g)
+        if name is None:
+            raise                      # any other ValueError: fail-closed
+        return {"lit": lit, "inits": [], "named": named, "sd": sd, "root": root._name or "", "all_inits": [], "stats": stats,
+                "never_realised": [], "raised": name, "message": str(e)[:300]}
     inits = [(k, pid_of[id(v)]) for k, v in g.initializers.items() if id(v) in pid_of]
-    return {"lit": lit, "inits": inits, "named": named, "sd": sd, "root": root._name or "",
+    return {"lit": lit, "inits": inits, "named": named, "sd": sd, "root": root._name or "", "raised": None,
             "all_inits": list(g.initializers.keys()), "stats": stats,
             "never_realised": sorted(pid_of[id(p)] for _k, p in root.named_parameters() if not p._realized)}
 
@@ -468,6 +545,7 @@ SHARD = 250
 def _bodies(cfg, items, tree_of, hyp_term):
     """items: list of (name, coq source of the tree/program, obs)."""
     cf = cfg_lit(cfg)
+    chk = chk_lit(cfg)
     bodies = []
     for a in range(0, len(items), SHARD):
         chunk = items[a:a + SHARD]
@@ -478,34 +556,78 @@ def _bodies(cfg, items, tree_of, hyp_term):
             f"Definition obs : list (list (string * nat) * list (string * nat)) := {obs}.\n"
             f"Definition cases : list tcase := map (fun so => ({tree_of} (fst so), fst (snd so), snd (snd so))) (combine srcs obs).\n"
             "Eval vm_compute in (disagreeing_t cf 0 cases).\n"
-            f"Eval vm_compute in (map (fun s => let t := {tree_of} s in let '(h, n, f, a) := verdict_t cf t in [{hyp_term}; n; f; a; lp_okb t]) srcs).\n")
+            f"Eval vm_compute in (map (fun s => let t := {tree_of} s in let '(h, n, f, a) := verdict_t cf t in [{hyp_term}; n; f; a; lp_okb t]) srcs).\n"
+            # the call under the probed variant of Parameter._realize: (returns, name in the ValueError)
+            f"Eval vm_compute in (map (fun s => outcome_view (call_result {chk} cf ({tree_of} s))) srcs).\n")
     return bodies
 
 
-def _judge(ctx, stream, items, results):
+_VIEW = re.compile(r'\(\s*(true|false)\s*,\s*"([^"]*)"(?:%string)?\s*\)')
+
+
+def _judge(ctx, cfg, stream, items, results):
     shard = SHARD
+    chk = bool(cfg.get("raises_on_collision"))
     st = {"cases": len(items), "disagree": 0, "hyp": 0, "hyp_sharing": 0, "sharing": 0, "iff_wrong": 0, "first_wrong": 0,
-          "known": 0, "name_outside_state_dict": 0, "hyp_false_first_holds": 0, "collisions": 0}
+          "known": 0, "name_outside_state_dict": 0, "hyp_false_first_holds": 0, "collisions": 0, "raised": 0, "raised_sharing": 0,
+          "raise_wrong": 0}
     for k, (okc, vals, raw) in enumerate(results):
         chunk = items[k * shard:(k + 1) * shard]
-        if not okc or len(vals) < 2:
+        if not okc or len(vals) < 3:
             ctx.tie_broken("correspondence", f"sharing:{stream}:evaluation", raw[-1500:])
             continue
         bad = set(_nats(vals[0]))
         flags = _bools(vals[1])
-        if len(flags) != 5 * len(chunk):
-            ctx.tie_broken("correspondence", f"sharing:{stream}:evaluation", f"{len(flags)} verdict flags for {len(chunk)} cases")
+        views = [(a == "true", b) for a, b in _VIEW.findall(vals[2])]
+        if len(flags) != 5 * len(chunk) or len(views) != len(chunk):
+            ctx.tie_broken("correspondence", f"sharing:{stream}:evaluation",
+                           f"{len(flags)} verdict flags / {len(views)} call outcomes for {len(chunk)} cases")
             continue
         for j, (name, src, obs) in enumerate(chunk):
             hyp, m_nodup, m_first, m_all, m_lp = flags[5 * j:5 * j + 5]
+            m_returns, m_raised_name = views[j]
             orc = _oracle(obs)
-            doc = {"stream": stream, "case": name, "source": src, "initializers": obs["inits"], "named_parameters": obs["named"]}
+            doc = {"stream": stream, "case": name, "source": src, "initializers": obs["inits"], "named_parameters": obs["named"],
+                   "raised": obs.get("raised")}
             what = (f"{name}: initializers {obs['inits']} (name, Parameter object); named_parameters {obs['named']}; "
                     f"root + state_dict keys {orc['want']}")
             sharing = not orc["nodup"]
             st["sharing"] += sharing
             # a registration of the object may sit in a module that is not part of the tree (dropped by a slice)
             shared_any = sharing or bool(obs.get("shared_outside"))
+            # -- the call under the probed variant of Parameter._realize (call_result): ValueError <-> model raises
+            if obs.get("raised") is not None:
+                st["raised"] += 1
+                st["raised_sharing"] += shared_any
+                if hyp:
+                    # C18_check_never_fires: under the hypotheses of the sharing theorems no two objects get one name
+                    st["raise_wrong"] += 1
+                    ctx.tie_broken("correspondence", f"sharing:{stream}:raises-under-hypotheses",
+                                   f"{name}: the real call raised {obs.get('message')!r} although the hypotheses of C18_check_never_fires hold for {src[:600]}")
+                elif m_returns or not chk:
+                    # the code rejects a program in which (per the model) every Parameter object gets a name of its own,
+                    # e.g. legal weight tying of ONE object
+                    st["raise_wrong"] += 1
+                    ctx.tie_broken("correspondence", f"sharing:{stream}:raises-without-collision",
+                                   f"{name}: the real call raised {obs.get('message')!r}; the model (raises_on_collision = {chk}) returns for {src[:600]}")
+                elif m_raised_name != obs["raised"]:
+                    st["raise_wrong"] += 1
+                    ctx.tie_broken("correspondence", f"sharing:{stream}:raises-for-another-name",
+                                   f"{name}: the real call raised for {obs['raised']!r}, the model for {m_raised_name!r}: {src[:600]}")
+                if m_nodup != orc["nodup"]:
+                    ctx.tie_broken("correspondence", f"sharing:{stream}:identities", f"{name}: nodup_natb says {m_nodup}, the real objects {orc['nodup']}")
+                continue
+            if not m_returns:
+                # raises_on_collision was probed true, the model raises for this program, the real call returned
+                st["raise_wrong"] += 1
+                if not orc["objects_once"]:
+                    ctx.violation(K_COLLIDE if shared_any else f"C18:sharing:{stream}:name-collision-not-rejected-without-sharing",
+                                  what + f"; two Parameter objects are realised under {m_raised_name!r} and one initializer is lost although "
+                                  "Parameter._realize rejects the minimal collision (probe)", doc)
+                else:
+                    ctx.tie_broken("correspondence", f"sharing:{stream}:returns-where-model-raises",
+                                   f"{what}; the model (raises_on_collision = true) raises for {m_raised_name!r}: {src[:600]}")
+                continue
             # -- the part of the property that survives sharing, on the real code (C18_param_objects_realised_once)
             if m_lp and obs["never_realised"]:
                 ctx.violation("C18:sharing:registered-parameter-object-never-realised", what + f"; never realised: {obs['never_realised']}", doc)
@@ -598,6 +720,8 @@ def run_sharing(ctx, cfg):
             if [k for k, _ in obs["inits"]] != exp_i or obs["sd"] != exp_sd:
                 ctx.tie_broken("correspondence", f"sharing:witness:{name}",
                                f"real initializers {obs['inits']} state_dict {obs['sd']}; Props/C18_modules.v states {exp_i} / {exp_sd}")
+        if name in EXPECTED_COLLISION:
+            _check_collision_witness(ctx, cfg, name, obs)
         if idx < 2:
             ctx.sample({"model": "A-sharing", "program": T.spec_lit(spec), "initializers": obs["inits"], "named_parameters": obs["named"]})
         obs["shared_outside"] = len(set(pids)) != len(pids)
@@ -611,6 +735,8 @@ def run_sharing(ctx, cfg):
         if exp_i is not None and ([k for k, _ in obs["inits"]] != exp_i or obs["sd"] != exp_sd):
             ctx.tie_broken("correspondence", f"sharing:witness:{name}",
                            f"real initializers {obs['inits']} state_dict {obs['sd']}; Props/C18_modules.v states {exp_i} / {exp_sd}")
+        if name in EXPECTED_COLLISION:
+            _check_collision_witness(ctx, cfg, name, obs)
         graphs.append((name, obs["lit"], obs))
     n_graphs = 140 if quick else 2500
     n_shared_mod = 0
@@ -628,8 +754,8 @@ def run_sharing(ctx, cfg):
                         "named_parameters": obs["named"]})
     bodies_t = _bodies(cfg, graphs, "(fun t : mtree => t)", "h")
     results = ctx.coq_eval_shards(REQ, bodies_p + bodies_t)
-    st_p = _judge(ctx, "P", items, results[:len(bodies_p)])
-    st_t = _judge(ctx, "T", graphs, results[len(bodies_p):])
+    st_p = _judge(ctx, cfg, "P", items, results[:len(bodies_p)])
+    st_t = _judge(ctx, cfg, "T", graphs, results[len(bodies_p):])
 
     ctx.obligation("correspondence A-sharing: initializers (name, Parameter object), named_parameters and initializer names of the real "
                    "nn classes = init_dict / sd_entries / realised_names of Modules.v on every program and object graph with shared objects",
@@ -637,6 +763,12 @@ def run_sharing(ctx, cfg):
     ctx.obligation("correspondence A-sharing: whenever the hypotheses of C18_names_eq_iff_no_sharing hold, nodup_natb (param_ids) predicts "
                    "exactly whether the real initializer names are root + state_dict keys, and they are root + first-registration keys",
                    st_p["iff_wrong"] + st_t["iff_wrong"] + st_p["first_wrong"] + st_t["first_wrong"] == 0)
+    ctx.obligation("correspondence A-sharing: the real call raises ValueError(name already used by another Parameter) exactly when "
+                   f"call_result (raises_on_collision = {bool(cfg.get('raises_on_collision'))}, probed) raises, and for the same name",
+                   st_p["raise_wrong"] + st_t["raise_wrong"] == 0, f"{st_p['raise_wrong']} + {st_t['raise_wrong']} disagreements")
+    ctx.cover(sharing_probed_raises_on_collision=bool(cfg.get("raises_on_collision")),
+              sharing_calls_rejected_by_collision_check=st_p["raised"] + st_t["raised"],
+              sharing_calls_rejected_with_shared_object=st_p["raised_sharing"] + st_t["raised_sharing"])
     ctx.cover(sharing_programs=st_p["cases"], sharing_programs_with_shared_parameter=st_p["sharing"],
               sharing_programs_hypotheses_hold=st_p["hyp"], sharing_programs_hypotheses_hold_and_shared=st_p["hyp_sharing"],
               sharing_graphs=st_t["cases"], sharing_graphs_with_shared_module=n_shared_mod, sharing_graphs_with_shared_parameter_object=st_t["sharing"],
@@ -646,3 +778,6 @@ def run_sharing(ctx, cfg):
               sharing_initializer_lost_by_name_collision=st_p["collisions"] + st_t["collisions"],
               sharing_known_deviations=st_p["known"] + st_t["known"], sharing_seconds=round(time.time() - t0, 1))
     ctx.assume("model A sharing: forward() calls every child once, in registration order (first registration = first call)")
+    ctx.assume("model A collisions: whether Parameter._realize raises on a name used by another Parameter object (raises_on_collision) is "
+               "probed on one minimal program at the start of every run; a ValueError of the real call counts as that check iff it mentions "
+               "the name of an initializer already stored, and it must be the name for which call_result raises")
